@@ -33,6 +33,7 @@ def main():
     kinds = {
         "unit": ("engine/cxx/verif_pbt.h + engine/vlib/unit.py", "in-process rapidcheck/libFuzzer harnesses linked against the real Squid objects (clang ASan+UBSan) through the repository's own unit-test link recipes"),
         "sched": ("engine/cxx/sched + engine/vlib/unit.py", "real lock-free IPC sources compiled against a scheduler-controlled std::atomic; rapidcheck-generated programs and schedules plus bounded exhaustive schedule enumeration"),
+        "composite": ("check (composite branch)", "a property decided by an in-process part and an end-to-end part; both run under one ./check and are merged into one evidence file"),
         "e2e": ("engine/vlib/e2e", "Hypothesis-generated scenarios against the real sanitizer-built proxy with harness-owned origin/client/helper/ICAP/DNS stubs, LD_PRELOAD clock and crash-point shim"),
     }
     manifest = {
